@@ -4,10 +4,11 @@
    resolved_solver_command, codec literals incl. those of the repaired ParseTimeout.unparse and
    ParseErrorCodes.unparse), Gen/GenConfigTime.v (parse_time unit table) and
    Gen/GenConfigMain.v (sources used by with_devdoc / with_natspec / load_config, loop binding
-   facts of run_tests / _main) are regenerated from /repo/src/halmos on every run. *)
+   facts of run_tests / _main) and Gen/GenConfigNatspec.v (literals of build.parse_natspec /
+   parse_devdoc) are regenerated from /repo/src/halmos on every run. *)
 From Coq Require Import ZArith List Bool QArith Lia.
-From HV Require Import Gen.GenConfig Gen.GenConfigTime Gen.GenConfigMain Spec.ConfigSpec Model.ConfigFloatModel Model.ConfigModel
-  Proofs.ConfigProofs Proofs.ConfigFloatProofs Proofs.ConfigCodecProofs Proofs.ConfigTimeoutProofs Proofs.ConfigArrlenProofs.
+From HV Require Import Gen.GenConfig Gen.GenConfigTime Gen.GenConfigMain Gen.GenConfigNatspec Spec.ConfigSpec Model.ConfigFloatModel Model.ConfigModel
+  Proofs.ConfigProofs Proofs.ConfigFloatProofs Proofs.ConfigCodecProofs Proofs.ConfigTimeoutProofs Proofs.ConfigArrlenProofs Proofs.ConfigNatspecProofs.
 Import ListNotations.
 Open Scope Z_scope.
 
@@ -45,6 +46,30 @@ Theorem C18_scope :
     nth_error res (length fs1) = Some (f, with_devdoc (with_natspec args nsA) ddf).
 Proof. exact scope_correct. Qed.
 Print Assumptions C18_scope.
+
+(* Scoping inside one NatSpec text (build.parse_natspec): with any leading text without '@', any
+   list of tags ('@' + a non-empty run of non-white-space) each followed by its text (starting
+   with white space, without '@') and an optional last tag without text, the annotation is the
+   stripped concatenation of the texts of exactly the @custom:halmos tags, in order: the text of
+   every other tag is ignored, wherever it stands. *)
+Theorem C18_natspec_scope :
+  forall t0 items last,
+    Forall (fun c => (c =? 64) = false) t0 ->
+    Forall (fun tb => (exists d r, fst tb = 64 :: d :: r /\ Forall (fun c => is_ws c = false) (d :: r)) /\
+                      (Forall (fun c => (c =? 64) = false) (snd tb) /\ exists w r, snd tb = w :: r /\ is_ws w = true)) items ->
+    (forall t, last = Some t -> exists d r, t = 64 :: d :: r /\ Forall (fun c => is_ws c = false) (d :: r)) ->
+    parse_natspec (t0 ++ concat (map (fun tb => fst tb ++ snd tb) items) ++ match last with Some t => t | None => [] end)
+    = strip (concat (map snd (filter (fun tb => list_eqb (fst tb) natspec_halmos_tag) items))).
+Proof. exact natspec_scope. Qed.
+Print Assumptions C18_natspec_scope.
+
+(* the literals of parse_natspec are the ones the splitter of Model/ConfigModel.v reads *)
+Theorem C18_natspec_literals_pinned :
+  natspec_split_re = [40; 64; 92; 83; 43; 41] /\ natspec_match_re = [94; 64; 92; 83] /\
+  natspec_text_key = [116; 101; 120; 116] /\
+  natspec_halmos_tag = [64; 99; 117; 115; 116; 111; 109; 58; 104; 97; 108; 109; 111; 115].
+Proof. exact natspec_literals_pinned. Qed.
+Print Assumptions C18_natspec_literals_pinned.
 
 (* The documented chain for the stacks the runner builds:
    command line > function annotation > contract annotation > config file > default *)
